@@ -8,7 +8,7 @@
 From Coq Require Import PeanoNat Arith Lia.
 From AV Require Import Base.Bytes Base.Outcome Hash.HashModel Spec.SpecOps Spec.SpecProofs Spec.SpecReal Xml.TablesOk Xml.TablesOkReal
   Tree.Heap Tree.Ops Tree.Script Tree.Inv Tree.SpecWFReal Tree.CompatHist1 Tree.CompatHistReal
-  Tree.Sort Tree.SortProofsOrder Tree.SortProofsHeap Tree.SortProofsCore Tree.SortProofsHist Tree.SortProofsReady.
+  Tree.Sort Tree.SortProofsOrder Tree.SortProofsHeap Tree.SortProofsCanon Tree.SortProofsCore Tree.SortProofsHist Tree.SortProofsReady.
 From AV Require Import Hash.HashRealElement Hash.HashRealAttr Hash.HashRealEnum.
 From AV.Gen Require Import SpecTables.
 Open Scope list_scope.
@@ -158,4 +158,45 @@ Proof.
   exists w, w'. vm_compute in E. injection E as E. eexists. eexists.
   split; [exact Hrun|]. split; [rewrite <- E; reflexivity|]. split; [rewrite <- E; reflexivity|].
   split; [cbn; auto|]. split; [reflexivity|]. split; [vm_compute; reflexivity|exact Hs].
+Qed.
+
+(* sort descends through ORDERED nodes: SUB-ELEMENTS (node 7) of an IMPLEMENTATION-DATA-TYPE is ordered; the ANNOTATIONS
+   (node 10) of its member IMPLEMENTATION-DATA-TYPE-ELEMENT hold two ANNOTATIONs with origins b, a in this order.  Sorting
+   the data type (node 5) reorders them, and the result is sorted_f - every reorderable list below node 5, also below the
+   ordered node, is sorted (the seeded change C14-sort-wrapper-returns-at-ordered stops at node 7) *)
+Definition nv_hist3 : list op :=
+  [ OpNewModel; OpCreateFile 0 [102] 1048576;
+    OpCreateSub 0 5413;                     (* AR-PACKAGES                          -> node 1 *)
+    OpCreateNamed 1 5250 [112];             (* AR-PACKAGE "p"                       -> node 2 (SHORT-NAME 3) *)
+    OpCreateSub 2 3929;                     (* ELEMENTS                             -> node 4 *)
+    OpCreateNamed 4 4359 [116];             (* IMPLEMENTATION-DATA-TYPE "t"         -> node 5 (SHORT-NAME 6) *)
+    OpCreateSub 5 1656;                     (* SUB-ELEMENTS (ordered)               -> node 7 *)
+    OpCreateNamed 7 3816 [101];             (* IMPLEMENTATION-DATA-TYPE-ELEMENT "e" -> node 8 (SHORT-NAME 9) *)
+    OpCreateSub 8 5806;                     (* ANNOTATIONS                          -> node 10 *)
+    OpCreateSub 10 6215; OpCreateSub 11 2359; OpSetCData 12 (DString [98]);    (* ANNOTATION 11, ANNOTATION-ORIGIN "b" *)
+    OpCreateSub 10 6215; OpCreateSub 13 2359; OpSetCData 14 (DString [97]) ].  (* ANNOTATION 13, ANNOTATION-ORIGIN "a" *)
+Definition nv_final3 : res world := Eval vm_compute in Inv.run_ops RT tab_element tab_enum nv_check 1048576 [] nv_hist3 empty_world.
+
+Example sort_descends_below_ordered : exists w w' n7,
+  Inv.run_ops RT tab_element tab_enum nv_check 1048576 [] nv_hist3 empty_world = Val w /\
+  w_nodes w 7 = Some n7 /\ is_ordered RT (n_type n7) = Val true /\
+  option_map n_content (w_nodes w 10) = Some [CElem 11; CElem 13] /\
+  e_sort RT tab_element tab_attr tab_enum 3516 6311 5 w = Val (OK tt, w') /\
+  option_map n_content (w_nodes w' 7) = Some [CElem 8] /\
+  option_map n_content (w_nodes w' 10) = Some [CElem 13; CElem 11] /\
+  sorted_f RT tab_element tab_attr tab_enum 3516 6311 (fuel_of w) w' 5.
+Proof.
+  destruct nv_final3 as [w| |] eqn:E; try (vm_compute in E; discriminate).
+  assert (Hrun : Inv.run_ops RT tab_element tab_enum nv_check 1048576 [] nv_hist3 empty_world = Val w)
+    by (rewrite <- E; vm_cast_no_check (@eq_refl _ nv_final3)).
+  destruct (spec_kids_histories_real nv_check 1048576 [] (fun a (F : In a []) => match F with end) nv_hist3 w Hrun) as (C & _).
+  destruct (never_fails_histories_real_isort nv_check 1048576 3516 6311 nv_hist3 w Hrun 5) as (w' & Hs).
+  { vm_compute in E. injection E as <-. eexists. reflexivity. }
+  pose proof (e_sort_sorted RT tab_element tab_attr tab_enum 3516 6311 isort_poly StableSort_isort 5 w _ w' C Hs) as SF.
+  exists w, w'. vm_compute in E. injection E as E. eexists.
+  split; [exact Hrun|]. split; [rewrite <- E; reflexivity|]. split; [vm_compute; reflexivity|].
+  split; [rewrite <- E; reflexivity|]. split; [exact Hs|].
+  assert (Hc : option_map n_content (w_nodes w' 7) = Some [CElem 8] /\ option_map n_content (w_nodes w' 10) = Some [CElem 13; CElem 11]).
+  { clear SF C Hrun. rewrite <- E in Hs. vm_compute in Hs. injection Hs as <-. split; vm_compute; reflexivity. }
+  destruct Hc as (H7 & H10). split; [exact H7|]. split; [exact H10|exact SF].
 Qed.
